@@ -106,6 +106,9 @@ func (s *Sched) fireEarliest() {
 	k := 0
 	if len(cand) > 1 {
 		k = s.choose(KClock, len(cand), false, nil)
+		if s.abandoned {
+			return
+		}
 	}
 	t := cand[k]
 	for i, x := range s.timers {
